@@ -2,9 +2,11 @@ import GormModel.Drv.Util
 import GormModel.Model.Limit
 import GormModel.Model.Batches
 import GormModel.Model.ReadPaths
+import GormModel.Model.ScanLoop
 open Lean
 namespace Gorm.Drv
 namespace HC15
+open Gorm.ScanLoop
 
 def parseLimCalls (j : Json) : Option (List LimCall) := do
   let a ← jArr? j
@@ -67,8 +69,71 @@ def shapeJ (c : Chain) : Json :=
   Json.mkObj [("ord", Json.arr (ord.map fun (t, d) => Json.arr #[natJ t, Json.bool d]).toArray),
     ("lim", optIntJ l), ("off", optIntJ o)]
 
+def cellJ : Cell → Json
+  | some n => Json.num (JsonNumber.fromInt n)
+  | none => Json.null
+
+def parseCell (j : Json) : Option Cell :=
+  match j with
+  | Json.null => some none
+  | j => (jInt? j).map some
+
+def parseRec (j : Json) : Option Rec := do
+  let a ← jArr? j
+  a.toList.mapM fun e => do
+    let p ← jArr? e
+    let k ← jStr? (arg p 0)
+    let v ← parseCell (arg p 1)
+    some (k, v)
+
+/-- association list → `[[key, cell], …]` sorted by key (Go map iteration order is irrelevant) -/
+def recJ (r : Rec) : Json :=
+  let sorted := (r.toArray.qsort (fun a b => a.1 < b.1)).toList
+  Json.arr (sorted.map fun (k, v) => Json.arr #[Json.str k, cellJ v]).toArray
+
+def parseSchema (j : Json) : Option Schema := do
+  let a ← jArr? j
+  a.toList.mapM fun e => do
+    let p ← jArr? e
+    let n ← jStr? (arg p 0)
+    let z ← parseCell (arg p 1)
+    let r ← jBool? (arg p 2)
+    some { name := n, zero := z, resetOnNull := r }
+
+def parseRecs (j : Json) : Option (List Rec) := do
+  let a ← jArr? j
+  a.toList.mapM parseRec
+
+def parseDest (j : Json) : Option Dest := do
+  let k ← jStr? (j.getObjValD "k")
+  match k with
+  | "structs" => some (.structs (← parseSchema (j.getObjValD "sch")) (← parseRecs (j.getObjValD "elems")))
+  | "maps" => some (.maps (← parseRecs (j.getObjValD "elems")))
+  | "prim" => some (.prim (← parseCell (j.getObjValD "v")))
+  | "struct1" => some (.struct1 (← parseSchema (j.getObjValD "sch")) (← parseRec (j.getObjValD "v")))
+  | "map1" => some (.map1 (← parseRec (j.getObjValD "v")))
+  | _ => none
+
+def destJ : Dest → Json
+  | .structs _ es => Json.arr (es.map recJ).toArray
+  | .maps es => Json.arr (es.map recJ).toArray
+  | .prim v => cellJ v
+  | .struct1 _ v => recJ v
+  | .map1 m => recJ m
+
+def parseRows (j : Json) : Option (List SRow) := do
+  let a ← jArr? j
+  a.toList.mapM fun r => do
+    let cs ← jArr? r
+    cs.toList.mapM parseCell
+
+def scanOutJ (o : ScanOut) : Json :=
+  Json.mkObj [("dest", destJ o.dest), ("ra", natJ o.ra), ("err", Json.bool o.err), ("nf", Json.bool o.notFound),
+    ("branch", Json.str o.branch)]
+
 end HC15
 open HC15
+open Gorm.ScanLoop
 
 def handleC15 (op : String) (args : Array Json) : Option Json := do
   match op with
@@ -106,6 +171,23 @@ def handleC15 (op : String) (args : Array Json) : Option Json := do
       ("matching", natListJ (c.matching tbl)),
       ("shape", Json.mkObj [("find", shapeJ c), ("first", shapeJ c.firstChain), ("last", shapeJ c.lastChain),
         ("take", shapeJ c.takeChain), ("count", shapeJ c.countChain), ("afterCount", shapeJ c.afterCount)])])
+  | "scan.path" =>
+    let path ← jStr? (arg args 1)
+    let raise ← jBool? (arg args 2)
+    let cols ← (← jArr? (arg args 3)).toList.mapM jStr?
+    let rows ← parseRows (arg args 4)
+    let failAt ← (match arg args 5 with | Json.null => some none | j => (jNat? j).map some)
+    let d ← parseDest (arg args 6)
+    let c := mkCursor rows failAt
+    match path with
+    | "query" => some (scanOutJ (queryPath c raise cols d))
+    | "scan" => some (scanOutJ (dbScan c cols d))
+    | "rowsloop" =>
+      let fresh := ((arg args 6).getObjValD "fresh").getBool?.toOption.getD false
+      let (snaps, err) := if fresh then rowsLoopFresh cols c [] else rowsLoop cols c d []
+      some (Json.mkObj [("dest", Json.arr (snaps.map destJ).toArray), ("ra", natJ snaps.length),
+        ("err", Json.bool err), ("branch", Json.str (if fresh then "rowsloop.fresh" else "rowsloop.reused"))])
+    | _ => none
   | _ => none
 
 end Gorm.Drv
